@@ -1,0 +1,8 @@
+//go:build verif
+
+package lexer
+
+// VerifReaderState exposes the reader position for the /verif lexer monitor.
+func (l *Lexer) VerifReaderState() (pos int, length int, unget bool, history int) {
+	return l.reader.VerifState()
+}
